@@ -89,6 +89,9 @@ var c10vConfigs = []*Config{
 	{Name: "v-subAB", Tier: "quick", Mode: "c10v", Events: []string{evLease1, evUpdate, evUpdate2, evSubA, evSubB}, Budgets: "0,0;1,0;0,1|1,1/2", ThoroughBudgets: "0,0;1,0;0,1|1,1/2|2,1/4|1,2/4"},
 	{Name: "v-subBC", Tier: "quick", Mode: "c10v", Events: []string{evLease1, evUpdate, evUpdate2, evSubB, evSubC}, Budgets: "0,0;1,0;0,1|1,1/2", ThoroughBudgets: "0,0;1,0;0,1|1,1/2|2,1/4|1,2/4"},
 	{Name: "v-subAC", Tier: "thorough", Mode: "c10v", Events: []string{evLease1, evUpdate, evUpdate2, evSubA, evSubC}, ThoroughBudgets: "0,0;1,0;0,1|1,1/2|2,1/4"},
+	// a right-hash and a wrong-hash submission queued together while the query is in flight: what is announced?
+	{Name: "v-subAW", Tier: "quick", Mode: "c10v", Events: []string{evLease1, evSubA, evSubW}, Budgets: bQ + "|2,2", ThoroughBudgets: bQ + "|2,2|3,3/2"},
+	{Name: "v-update-subAW", Tier: "quick", Mode: "c10v", Events: []string{evLease1, evUpdate, evSubB, evSubW, evLease2}, Budgets: "0,0;1,0;0,1", ThoroughBudgets: "0,0;1,0;0,1|1,1/2"},
 	{Name: "v-1update-subAB", Tier: "quick", Mode: "c10v", Events: []string{evLease1, evUpdate, evSubA, evSubB}, Budgets: bQ, ThoroughBudgets: bQ + "|2,2|3,3/4"},
 	{Name: "v-nolease-subBC", Tier: "thorough", Mode: "c10v", Events: []string{evUpdate, evUpdate2, evSubB, evSubC, evLease1}, ThoroughBudgets: "0,0;1,0;0,1|1,1/2"},
 	{Name: "v-fetcherr-subBC", Tier: "thorough", Mode: "c10v", Events: []string{evLease1, evUpdate, evUpdate2, evSubB, evSubC}, FetchErrs: 1, ThoroughBudgets: "0,0;1,0|0,1/2"},
